@@ -50,7 +50,7 @@ pub fn expand_aliases(t: &Ty) -> Ty {
     let eb = |t: &Ty| std::boxed::Box::new(expand_aliases(t));
     match t {
         Alias(_, inner) => e(inner),
-        Prim(_) | Str | Marker(_) | NonZero(_) | Duration | BitVec(..) | CowStr | Param(_) | Assoc(..) | StrSlice => t.clone(),
+        Prim(_) | Str | Marker(_) | NonZero(_) | Duration | BitVec(..) | BitVecOf(..) | CowStr | Param(_) | Assoc(..) | StrSlice => t.clone(),
         Slice(t) => Slice(eb(t)),
         Def(d, a) => Def(*d, a.iter().map(e).collect()),
         Vec(t) => Vec(eb(t)),
@@ -344,7 +344,7 @@ impl<'p> Sim<'p> {
                 mk_type(p, params, typedef, def.docs.clone())
             }
             Ty::Box(_) | Ty::VecDeque(_) | Ty::Vec(_) | Ty::Str | Ty::Alias(..) => unreachable!("delegated away: {key:?}"),
-            Ty::Param(_) | Ty::Assoc(..) => panic!("open type registered: {key:?}"),
+            Ty::Param(_) | Ty::Assoc(..) | Ty::BitVecOf(..) => panic!("open type registered: {key:?}"),
         }
     }
 
@@ -452,6 +452,10 @@ fn consulted_positions_opts(prog: &Program, t: &Ty, args: Option<&[Ty]>, out: &m
         BitVec(s, _) => {
             out.push((t.clone(), false));
             out.push((Prim(*s), false));
+        }
+        BitVecOf(i, _) => {
+            out.push((t.clone(), false));
+            out.push((Param(*i), true));
         }
         Vec(x) | VecDeque(x) | Array(x, _) | Option(x) | Cow(x) | BTreeSet(x) | BinaryHeap(x) | Range(x)
         | RangeInclusive(x) | Compact(x) | Slice(x) => {
